@@ -176,6 +176,15 @@ fn judge<G: CurveTag>(
             ("deserialize_compressed", R1CSProof::<G>::deserialize_compressed(bytes).ok()),
             ("deserialize_compressed_unchecked", R1CSProof::<G>::deserialize_compressed_unchecked(bytes).ok()),
             ("Vec::deserialize_compressed", Vec::<R1CSProof<G>>::deserialize_compressed(&container[..]).ok().and_then(|mut v| v.pop())),
+            ("deserialize_uncompressed", R1CSProof::<G>::deserialize_uncompressed(bytes).ok()),
+            ("deserialize_uncompressed_unchecked", R1CSProof::<G>::deserialize_uncompressed_unchecked(bytes).ok()),
+            // the uncompressed form of whatever the bytes decode to, decoded again
+            ("uncompressed round trip", R1CSProof::<G>::deserialize_compressed_unchecked(bytes).ok().and_then(|p| {
+                use ark_serialize::CanonicalSerialize;
+                let mut u = vec![];
+                p.serialize_uncompressed(&mut u).ok()?;
+                R1CSProof::<G>::deserialize_uncompressed_unchecked(&u[..]).ok()
+            })),
         ]
     });
     match others {
